@@ -103,7 +103,19 @@ def resp_cases(rnd, tier):
             out.append(dict(fam="resp", accept=[dict(type="google.api.HttpBody", q=10)], lines=1, reqct=reqct, kind=kind, respbody="",
                             acceptenc="", junk="", hdr=""))
     rnd.shuffle(out)
-    return out[: (3000 if tier == "quick" else 400000)]
+    always = []
+    # raw replies (google.api.HttpBody as the reply, or as a field of the reply selected by response_body) to requests
+    # of every content type, registered or not, with and without an Accept header
+    for reqct in ["application/json", "application/protobuf", "image/jpeg", "text/plain", "application/x-www-form-urlencoded"]:
+        for acc in [[], [dict(type="*/*", q=10)], [dict(type="image/png", q=10)], [dict(type="application/json", q=10)], [dict(type="text/html", q=10), dict(type="image/*", q=5)]]:
+            for rb in ["", "hb"]:
+                always.append(dict(fam="resp", accept=acc, lines=1, reqct=reqct, kind="httpbody", respbody=rb, acceptenc=rnd.choice(["", "gzip"]), junk="", hdr=rnd.choice(["", "set"])))
+    # uploads into an HttpBody field whose handler answers with an ordinary message carrying the uploaded bytes
+    for reqct in ["application/json", "application/protobuf", "application/octet-stream", "application/x-verif"]:
+        for acc in [[], [dict(type="application/json", q=10)], [dict(type="application/protobuf", q=10)], [dict(type="*/*", q=10)]]:
+            for k in range(3):
+                always.append(dict(fam="resp", accept=acc, lines=1, reqct=reqct, kind="upecho", respbody="", acceptenc=rnd.choice(["", "gzip"]), junk="", hdr=""))
+    return out[: (3000 if tier == "quick" else 400000)] + always
 
 
 def run(prop, tier, replay=None):
